@@ -612,7 +612,7 @@ class McPart(Part):
 
     def run(self, ctx, replay):
         b = self.build(ctx)
-        base_env = {'VERIF_MC_PROP': self.prop}
+        base_env = {'VERIF_MC_PROP': self.prop, 'VERIF_MC_PART': self.name}
         args = [b, '-test.run', '^TestMC$', '-test.timeout', '0', '-test.count', '1']
         if replay:
             e = ctx.env(self.name, base_env | {'VERIF_REPLAY': os.path.abspath(replay)})
